@@ -2227,6 +2227,13 @@ def check_C10(tier, seed):
               "(intern \"\")", "(make-symbol \"\")", "(eval '(1 2))", "(eval ''a)", "(macroexpand '(when))", "(macroexpand '(-> ))", "(setq x '(progn (macroexpand x))) (eval x)", "(setq x (list 'append 'x)) (eval x)",
               "(setq l '(1 2)) (append l l)", "(setq l '(1 2)) (equal l l)", "(setq s 'q) (append s s)", "(let ((l (list 1 2))) (sort l (lambda (a b) (append l l) nil)))"]
     for sh in shapes: items.append((sh, {'name': 'shape'}))
+    # the form under evaluation handed to the function it calls (the evaluator holds a borrow of that list while the call runs):
+    # (setq vf '(NAME vf ..)) (eval vf), for every name, the form first, second and in both positions, bare and below a progn
+    self_items = []
+    for nme in names:
+        if nme in ('while', 'while-let'): continue
+        for body_ in ('(%s vf)' % nme, '(%s vf vf)' % nme, '(%s 1 vf)' % nme, "(%s 'vf vf)" % nme, '(%s (cdr vf) 1)' % nme, '(progn (%s vf 1))' % nme, '(if t (%s (cdr vf) vf) nil)' % nme):
+            self_items.append(("(setq vf '%s) (list (eval vf) vf)" % body_, {'name': nme + '-selfform'}))
     # unevaluated structure in the binder / parameter / clause position of every binding form (the sweep above only passes
     # argument expressions): well-formed, empty, dotted, over-long, non-symbol and nil / t / keyword names, &optional / &rest markers
     structs = ['()', '(a)', '(a 1)', '((a 1))', '((a 1) (b 2))', '((nil 1))', '((a))', '(())', '((a . 1))', '((a 1 2))', '((1 2))', '(("s" 1))', '((:k 1))', '((t 1))', '((a 1) . 5)', '(a . 1)',
@@ -2300,6 +2307,41 @@ def check_C10(tier, seed):
                     res.cov['disagreements_checked'] = res.cov.get('disagreements_checked', 0) + 1
                     if len(res.pending) < 10:
                         res.pending.append({'program': text, 'impl_decoded': decode_line(dl[k]), 'model_decoded': decode_line(ml[k]), 'why': 'differ', 'correspondence': 'Eval.apply_prim'})
+    # the self-referential forms, one process-independent case each: some of them do not terminate (a form that evaluates
+    # itself); unbounded recursion is outside the property - the model runs out of fuel on exactly those - every other
+    # program must end with a value or an error in both profiles
+    scases = []
+    for j, (t_, m_) in enumerate(self_items):
+        c = Case('sf%d' % j); c.eval(C10_PRELUDE + ' ' + t_); scases.append(c)
+    s_d = core.run_side(core.TLIMPL_DEBUG, scases, announce=True, timeout=300, env={'TL_STACK_MB': '64'})
+    s_r = core.run_side(core.TLIMPL_RELEASE, scases, announce=True, timeout=300, env={'TL_STACK_MB': '64'})
+    s_m = core.run_side(core.TLMODEL, scases, timeout=600, env={'TL_FUEL': '4000'})
+    nunb = 0
+    for c, (t_, m_) in zip(scases, self_items):
+        d = core.parse_line(s_d[c.cid][0]) if s_d.get(c.cid) else None
+        r = core.parse_line(s_r[c.cid][0]) if s_r.get(c.cid) else None
+        m = core.parse_line(s_m[c.cid][0]) if s_m.get(c.cid) else None
+        ncmp += 1
+        unbounded = m is not None and m[1] == 'F'
+        if unbounded: nunb += 1
+        for prof, o in (('debug', d), ('release', r)):
+            if o is None or o[1] in ('P',) or (o[1] in ('A', 'H') and not unbounded):
+                nv += 1
+                if nv <= 8: res.violation('panic', {'program': t_, 'profile': prof, 'line': decode_line((s_d if prof == 'debug' else s_r)[c.cid][0]) if o is not None else None,
+                                                    'why': 'a form that is handed to the function it calls (the evaluator is reading that list) made the interpreter panic or abort'})
+                break
+        else:
+            if d[1] in ('V', 'E') and r[1] in ('V', 'E'):
+                distinct.add((m_['name'], d[1], d[2][:24]))
+                if core.default_observe(*d[1:]) != core.default_observe(*r[1:]):
+                    nv += 1
+                    if nv <= 8: res.violation('profile-difference', {'program': t_, 'debug': decode_line(s_d[c.cid][0]), 'release': decode_line(s_r[c.cid][0])})
+                elif m is not None and m[1] != 'F' and not (m[1] == 'E' and m[2] == 'unmodelled') and core.default_observe(*m[1:]) != core.default_observe(*d[1:]):
+                    res.cov['disagreements_checked'] = res.cov.get('disagreements_checked', 0) + 1
+                    if len(res.pending) < 10:
+                        res.pending.append({'program': C10_PRELUDE + ' ' + t_, 'impl_decoded': decode_line(s_d[c.cid][0]), 'model_decoded': decode_line(s_m[c.cid][0]), 'why': 'differ', 'correspondence': 'Eval.apply_prim'})
+    res.cov['self_referential_forms'] = len(self_items)
+    res.cov['self_referential_unbounded'] = nunb
     # programs whose recursion is in tail position run on a small stack: the interpreter must not abort the process
     deep = ["(defun f (n acc) (if (> n 0) (f (- n 1) (+ acc 1)) acc)) (f 20000 0)",
             "(defun f (n acc) (if (< n 1) acc (f (- n 1) (+ acc 1)))) (f 20000 0)",
@@ -2327,7 +2369,8 @@ def check_C10(tier, seed):
     res.cov['rule'] = ('every built-in function, macro and special form of the source inventory applied to nil, t, integers incl. i64 extremes, floats incl. signed zero / inf / NaN, string, symbol, keyword, '
                        'proper / dotted / association list, lambda, built-in function and macro objects, hash table, foreign boxed value, a symbol bound to itself; arity 0-2 exhaustive, 3 and 4 sampled; '
                        '%d malformed special forms, overflow and zero-division cases and programs that pass one object in several positions; each program in a fresh context, in the debug and the release build; '
-                       'oracle: never a panic or abort, identical outcome in both profiles; correspondence: value / error class equal to the model' % len(shapes))
+                       '%d self-referential forms (setq vf (quote (NAME vf ..))) (eval vf) for every name - the form under evaluation handed to the function it calls - each in its own case, those that recurse without bound recognised by the model running out of fuel; '
+                       'oracle: never a panic or abort, identical outcome in both profiles; correspondence: value / error class equal to the model' % (len(shapes), len(self_items)))
     res.cov['samples'] = [full[1][0], full[500][0], full[-1][0]]
     for d in res.pending:
         res.violation('disagreement', d, no_input=not oracle_confirms(d))
